@@ -399,7 +399,12 @@ def run_lines(exe, lines, shards=NPROC, env=None):
 
 
 def generate(op, seed, count):
-    p = subprocess.run([HARNESS_EXE, "gen", op, str(seed), str(count)], stdout=subprocess.PIPE, text=True)
+    # some generators call the real code (printed trees, accepted texts): a change that makes it loop must not hang the check
+    limit = float(os.environ.get("VERIF_GEN_TIMEOUT", "240"))
+    try:
+        p = subprocess.run([HARNESS_EXE, "gen", op, str(seed), str(count)], stdout=subprocess.PIPE, text=True, timeout=limit)
+    except subprocess.TimeoutExpired:
+        raise Broken(f"harness gen {op} did not finish within {limit:g} s (a generator that calls the implementation does not return)")
     if p.returncode != 0:
         raise Broken(f"harness gen {op} failed")
     lines = p.stdout.split("\n")
